@@ -161,6 +161,7 @@ def gen_elf(rng, work, tag):
     rng.shuffle(vbases)
     segs = []
     off = 0x1000
+    clash = rng.randrange(1, nseg) if (nseg > 1 and rng.random() < 0.35) else None   # one segment only
     for i in range(nseg):
         filepages = rng.choice([1, 2, 3, 5])
         frac = rng.choice([0, 0, 0x200, 0x800])          # fractional last page
@@ -169,6 +170,10 @@ def gen_elf(rng, work, tag):
         start_off = rng.choice([0, 0, 0, 0x400])         # segment not page aligned
         p = phys + start_off
         v = vbases[i] + (p & 0xffffff)
+        if clash == i:
+            # virtual range numerically inside the physical range of an earlier segment
+            # (different content at the same number in two address spaces)
+            v = segs[-1][0] + rng.choice([0, 0x200, PAGE])
         lines.append("@phdr type=LOAD offset=0x%x vaddr=0x%x paddr=0x%x memsz=0x%x"
                      % (off, v, p, memsz) if i == 0 else
                      "@phdr type=LOAD vaddr=0x%x paddr=0x%x memsz=0x%x" % (v, p, memsz))
